@@ -288,6 +288,8 @@ impl Store {
     ) -> anyhow::Result<()> {
         let mut sync = self.sync.lock();
 
+        #[cfg(nomt_verif)]
+        let _ = crate::verif_hook::step("poison_check");
         if self
             .shared
             .poisoned
@@ -305,6 +307,8 @@ impl Store {
             page_cache,
             updated_pages,
         ) {
+            #[cfg(nomt_verif)]
+            let _ = crate::verif_hook::step("poison");
             self.shared
                 .poisoned
                 .store(true, std::sync::atomic::Ordering::Relaxed);
